@@ -15,7 +15,7 @@ name) is checked on every serialised operand.  The model's `synEq` is compared w
 Oracle (fresh `python -m refurb --enable-all` per file): a FURB110 diagnostic on the probe line/column is present iff
 `ast.dump(parse(A)) == ast.dump(parse(B))` (and-chains compared right-nested as mypy parses them; two import aliases
 of one object count as one name, see ALIASES); the same for FURB108/124/136/121/102/132/188 through their own use
-of the relation.  Every mismatch is classified by diffing the two serialised operands (cause) and reported.
+of the relation (FURB108/124 also with an operand repeated inside ONE comparison, which is not a shared operand).  Every mismatch is classified by diffing the two serialised operands (cause) and reported.
 """
 
 from __future__ import annotations
@@ -664,8 +664,12 @@ T110 = "_ = (<A>) if (<B>) else c"
 
 # the other checks that use the relation: template, expected-flag function over `same(x, y)` of operand texts
 OTHER_CHECKS: dict[str, dict[str, Any]] = {
-    "FURB108": {"t": "_ = (<A>) == vb or (<B>) == c", "ops": lambda a, b: [a, "vb", b, "c"], "kind": "anypair"},
-    "FURB124": {"t": "_ = (<A>) == vb and (<B>) == c", "ops": lambda a, b: [a, "vb", b, "c"], "kind": "anypair"},
+    # FURB108/FURB124: an operand shared BETWEEN the two comparisons ("cross": first comparison's operands, second one's)
+    "FURB108": {"t": "_ = (<A>) == vb or (<B>) == c", "ops": lambda a, b: ([a, "vb"], [b, "c"]), "kind": "cross"},
+    "FURB124": {"t": "_ = (<A>) == vb and (<B>) == c", "ops": lambda a, b: ([a, "vb"], [b, "c"]), "kind": "cross"},
+    # a repeated operand inside ONE comparison is not a shared one: `q == q or p == r` must not be flagged, `p == p or p == r` must
+    "FURB108s": {"code": "FURB108", "t": "_ = (<A>) == (<A>) or (<B>) == c", "ops": lambda a, b: ([a, a], [b, "c"]), "kind": "cross"},
+    "FURB124s": {"code": "FURB124", "t": "_ = vb == (<A>) and (<B>) == (<B>)", "ops": lambda a, b: (["vb", a], [b, b]), "kind": "cross"},
     "FURB136": {"t": "_ = (<A>) if (<B>) > vb else vb", "kind": "ab-or-both-vb"},
     "FURB121": {"t": "_ = isinstance((<A>), int) or isinstance((<B>), str)", "kind": "ab"},
     "FURB102": {"t": '_ = (<A>).startswith("x") or (<B>).startswith("y")', "kind": "ab", "str": True},
@@ -735,7 +739,8 @@ def build_cases(rng: Any, quick: bool) -> list[ProbeFile]:
             if sec in ("module", "function", "unreachable", "platform"):
                 # the other checks, on plain operands (no and/or/if/compare inside, so the diagnostic's line identifies it)
                 pg = Gen(rng, names, False, True)
-                for code, spec in OTHER_CHECKS.items():
+                for key, spec in OTHER_CHECKS.items():
+                    code = spec.get("code", key)
                     if (code in NEEDS_TYPES and sec == "unreachable") or (sec == "platform" and code not in RESOLUTION_FREE):
                         continue
                     for _ in range(3 if quick else 5):
@@ -743,21 +748,21 @@ def build_cases(rng: Any, quick: bool) -> list[ProbeFile]:
                             a = rng.choice(STR_OPERANDS)
                             cands = [a, rng.choice(STR_OPERANDS), rng.choice(STR_OPERANDS)]
                             for b in cands:
-                                add("other-check", a, b, "", spec["t"], code, stmt=spec.get("stmt", False))
+                                add("other-check", a, b, "", spec["t"], code, stmt=spec.get("stmt", False), spec=key)
                             continue
                         tree = pg.expr(rng.choice([1, 2, 3]))
                         a = unparse(tree)
                         if a is None or len(a) > 200:
                             continue
-                        add("other-check", a, a, "identical", spec["t"], code, stmt=spec.get("stmt", False))
+                        add("other-check", a, a, "identical", spec["t"], code, stmt=spec.get("stmt", False), spec=key)
                         mu = mutate(tree, rng, names)
                         if mu is not None:
                             b = unparse(mu[1])
                             if b is not None and "await" not in b:
-                                add("other-check", a, b, mu[0], spec["t"], code, stmt=spec.get("stmt", False))
+                                add("other-check", a, b, mu[0], spec["t"], code, stmt=spec.get("stmt", False), spec=key)
                         b = unparse(pg.expr(1))
                         if b is not None:
-                            add("other-check", a, b, "unrelated", spec["t"], code, stmt=spec.get("stmt", False))
+                            add("other-check", a, b, "unrelated", spec["t"], code, stmt=spec.get("stmt", False), spec=key)
             pf.add_section(sec, entries, rng)
         files.append(pf)
     return files
@@ -768,18 +773,19 @@ def same(a: str, b: str, aliases: bool = True) -> bool:
     return da is not None and da == db
 
 
-def expected_flag(p: dict[str, Any]) -> bool:
+def expected_flag(p: dict[str, Any], aliases: bool = True) -> bool:
     a, b = p["a"], p["b"]
     if p["check"] == "FURB110":
-        return same(a, b)
-    kind = OTHER_CHECKS[p["check"]]["kind"]
+        return same(a, b, aliases)
+    spec = OTHER_CHECKS[p.get("spec", p["check"])]
+    kind = spec["kind"]
     if kind == "ab":
-        return same(a, b)
-    if kind == "anypair":
-        ops = OTHER_CHECKS[p["check"]]["ops"](a, b)
-        return any(same(ops[i], ops[j]) for i in range(4) for j in range(i + 1, 4))
+        return same(a, b, aliases)
+    if kind == "cross":
+        first, second = spec["ops"](a, b)
+        return any(same(x, y, aliases) for x in first for y in second)
     if kind == "ab-or-both-vb":
-        return same(a, b) or (same(a, "vb") and same(b, "vb"))
+        return same(a, b, aliases) or (same(a, "vb", aliases) and same(b, "vb", aliases))
     raise AssertionError(kind)
 
 
@@ -896,6 +902,14 @@ class Ser:
         return j
 
 
+def safe_eq(fn: Any, args: tuple[Any, Any]) -> Any:
+    """the implementation's verdict, or what it raised (a crash of the real function is a disagreement, not a harness failure)"""
+    try:
+        return bool(fn(*args))
+    except Exception as e:  # noqa: BLE001
+        return {"raised": type(e).__name__}
+
+
 def worker_main(spec_path: str, out_path: str) -> None:
     import random
 
@@ -949,7 +963,7 @@ def worker_main(spec_path: str, out_path: str) -> None:
         probes = {}
         for line, cond in sorted(found.items()):
             ia, ib = reg(cond.if_expr), reg(cond.cond)
-            probes[str(line)] = {"a": ia, "b": ib, "eq": bool(is_equivalent(cond.if_expr, cond.cond)), "eq_rev": bool(is_equivalent(cond.cond, cond.if_expr))}
+            probes[str(line)] = {"a": ia, "b": ib, "eq": safe_eq(is_equivalent, (cond.if_expr, cond.cond)), "eq_rev": safe_eq(is_equivalent, (cond.cond, cond.if_expr))}
         pairs = []
         idx = list(range(len(nodes)))
         # sub-expressions of operands enter the pool too (direct children found through the traverser-free route: fields)
@@ -973,7 +987,7 @@ def worker_main(spec_path: str, out_path: str) -> None:
             if len(idx) < 2:
                 break
             i, j = rng.choice(idx), rng.choice(idx)
-            pairs.append([i, j, bool(is_equivalent(nodes[i], nodes[j]))])
+            pairs.append([i, j, safe_eq(is_equivalent, (nodes[i], nodes[j]))])
         by_text: dict[str, list[int]] = {}
         for line, pr in probes.items():
             ta, tb = lines[int(line)].split("\x00")
@@ -983,25 +997,29 @@ def worker_main(spec_path: str, out_path: str) -> None:
         for _ in range(spec["ncross"] // 3 if multi else 0):
             v = rng.choice(multi)
             i, j = rng.sample(v, 2)
-            pairs.append([i, j, bool(is_equivalent(nodes[i], nodes[j]))])
-        none_pairs = [[None, None, bool(is_equivalent(None, None))]]
+            pairs.append([i, j, safe_eq(is_equivalent, (nodes[i], nodes[j]))])
+        none_pairs = [[None, None, safe_eq(is_equivalent, (None, None))]]
         for i in rng.sample(idx, min(len(idx), spec["nnone"])):
-            none_pairs.append([None, i, bool(is_equivalent(None, nodes[i]))])
-            none_pairs.append([i, None, bool(is_equivalent(nodes[i], None))])
+            none_pairs.append([None, i, safe_eq(is_equivalent, (None, nodes[i]))])
+            none_pairs.append([i, None, safe_eq(is_equivalent, (nodes[i], None))])
         quads = []
         for _ in range(spec["nquads"]):
-            if len(idx) < 4:
+            if len(idx) < 7:
                 break
-            base = rng.sample(idx, 4)
-            if rng.random() < 0.6:
-                # plant an equivalent partner: the other operand of some probe, or the node itself is not allowed (same object)
+            n = rng.choice([4, 4, 4, 4, 4, 4, 2, 3, 5, 6, 7])  # the checks pass four operands; other lengths exercise `half = len // 2`
+            base = rng.sample(idx, n)
+            for _plant in range(rng.choice([0, 1, 1, 2])):
+                # plant an equivalent pair (the two operands of some probe) at two positions: same half or across, by chance
                 pr = rng.choice(list(probes.values()))
-                pos = rng.sample(range(4), 2)
+                pos = rng.sample(range(n), 2)
                 base[pos[0]], base[pos[1]] = pr["a"], pr["b"]
-            if len({id(nodes[i]) for i in base}) < 4:
+            if len({id(nodes[i]) for i in base}) < n:
                 continue
-            got = get_common_expr_positions(*[nodes[i] for i in base])
-            quads.append([base, list(got) if got is not None else None])
+            try:
+                got = get_common_expr_positions(*[nodes[i] for i in base])
+                quads.append([base, list(got) if got is not None else None])
+            except Exception as e:  # noqa: BLE001
+                quads.append([base, {"raised": type(e).__name__}])
         out["files"][fname] = {"operands": operands, "probes": probes, "cross": pairs, "none": none_pairs, "quads": quads, "lits": ser.lits, "a1": ser.a1, "kinds": ser.kinds, "heads": {k: sorted(v) for k, v in ser.heads.items()}}
     Path(out_path).write_text(json.dumps(out))
 
@@ -1135,7 +1153,7 @@ def run(ctx) -> None:
         "of it, 3 single-edit mutants (edit kinds: name, attribute, arg, arg-kind, keyword, pos-to-kw, arity, operator, swap, literal, literal-type, "
         "slice-part, dict-key, star, class, nest), one unrelated operand; 6 sections (module, function with redefined variables, unreachable after "
         "return, platform-guarded block, undefined names, async); a 70-pair hand-written corpus of lexical variants and str() collisions; "
-        "in-process also cross pairs between operands/sub-expressions of different probes, (None, x) pairs and operand quadruples. "
+        "in-process also cross pairs between operands/sub-expressions of different probes, (None, x) pairs and operand tuples of length 2-7 for get_common_expr_positions (equivalent pairs planted in one half or across). "
         "non-trivial = the two operand texts differ or the pair is laid out over several lines; distinct = distinct (check, section, A, B)" % (4 if quick else 6)
     )
     driver_ok = ctx.driver.available()
@@ -1254,7 +1272,7 @@ def run(ctx) -> None:
                 if a["eq"] != impl:
                     w = wouts[m[0]]["operands"]
                     res.disagree("is_equivalent (%s pair)" % kind, {"a": None if m[1] is None else w[m[1]], "b": None if m[2] is None else w[m[2]]}, a["eq"], impl)
-                if impl:
+                if impl is True:
                     res.bump("inproc:%s-equivalent" % kind)
             elif kind == "quad":
                 res.case(("inproc", kind, m), nontrivial=impl is not None)
@@ -1287,14 +1305,14 @@ def run(ctx) -> None:
             want = expected_flag(p)
             key = (p["check"], p["section"], p["a"], p["b"])
             res.case(key, nontrivial=p["a"] != p["b"] or "\n" in p["b"])
-            res.bump(f"oracle:{p['check']}:{p['kind']}")
+            res.bump(f"oracle:{p.get('spec', p['check'])}:{p['kind']}")
             if p["edit"] and p["kind"] == "mutant":
                 res.bump("edit:" + p["edit"])
             res.bump("oracle:flagged" if flagged else "oracle:not-flagged")
             w = p.get("_w")
             if p["check"] == "FURB110" and w is not None and w["eq"] != flagged and not err:
                 res.disagree("FURB110 vs is_equivalent(if_expr, cond)", {"a": p["a"], "b": p["b"], "section": p["section"]}, w["eq"], flagged)
-            if want and not same(p["a"], p["b"], aliases=False) and p["check"] == "FURB110":
+            if want != expected_flag(p, aliases=False):
                 # the operands differ only by an import alias of one object: either verdict is accepted (see assumptions)
                 res.bump("alias-pairs-flagged" if flagged else "alias-pairs-not-flagged")
                 continue
@@ -1302,6 +1320,11 @@ def run(ctx) -> None:
                 continue
             fp = flagged and not want
             cause = ("fstring-desugared" if fp and has_fstring(p["a"]) != has_fstring(p["b"]) else diagnose(*p["_ops"], false_positive=fp)) if "_ops" in p else ("unresolved-name" if fp and p["section"] in ("platform", "undefined") else "not-diagnosed")
+            ospec = OTHER_CHECKS.get(p.get("spec", p["check"]), {})
+            if fp and ospec.get("kind") == "cross":
+                first, second = ospec["ops"](p["a"], p["b"])
+                if same(first[0], first[1]) or same(second[0], second[1]):
+                    cause = "same-comparison-operands"  # the only equal pair sits inside ONE comparison
             cause_class = cause.split(":")[0]
             sig = {"check": p["check"], "direction": "false-positive" if fp else "false-negative", "cause": cause_class}
             src = minimal_source(p)
